@@ -539,6 +539,9 @@ func (rngdata *RangeNamespaceData) ReadFrom(reader io.Reader) (int64, error) {
 	}
 
 	rngdata.Shares = make([][]libshare.Share, len(nd))
+	// the receiver may be reused across responses: proofs of a previous response must not survive
+	rngdata.FirstIncompleteRowProof = nil
+	rngdata.LastIncompleteRowProof = nil
 	for i, row := range nd {
 		rngdata.Shares[i] = row.Shares
 		if i == 0 {
